@@ -190,6 +190,18 @@ func (p *untypedParamBinder) Bind(request *http.Request, routeParams RouteParams
 		var err error
 		var mt string
 
+		if request.PostForm == nil && request.MultipartForm == nil && !runtime.HasBody(request) {
+			// no payload at all (a client that was given no form value sends none): no form parameter was sent.
+			// (Once a form has been parsed for an earlier parameter the body is used up: that is not "no payload".)
+			if p.parameter.Type == "file" {
+				if p.parameter.Required {
+					return errors.Required(p.Name, p.parameter.In, nil)
+				}
+				return nil
+			}
+			return p.bindValue(nil, false, target)
+		}
+
 		mt, _, e := runtime.ContentType(request.Header)
 		if e != nil {
 			// because of the interface conversion go thinks the error is not nil
